@@ -231,6 +231,17 @@ pub fn run(op: &str, a: &[String]) -> Vec<String> {
             let cpath = dir.join(format!("chain-{tag}.pem"));
             let kpath = dir.join(format!("key-{tag}.pem"));
             let spath = dir.join(format!("single-{tag}.pem"));
+            // optional: the target files already exist and hold more than what is stored now
+            // (an older, longer chain; two keys): storing replaces them
+            let pre: usize = a.get(2).and_then(|x| x.parse().ok()).unwrap_or(0);
+            if pre > 0 {
+                let old: Vec<Identity> = (0..n + pre).map(|_| Identity::self_signed(["old.example"]).unwrap()).collect();
+                let old_chain: String = old.iter().map(|i| i.certificate_chain().as_slice()[0].to_pem()).collect();
+                std::fs::write(&cpath, &old_chain).unwrap();
+                std::fs::write(&spath, &old_chain).unwrap();
+                let old_keys: String = old.iter().take(2).map(|i| i.private_key().to_secret_pem()).collect();
+                std::fs::write(&kpath, &old_keys).unwrap();
+            }
             let out = rt.block_on(async {
                 chain.store_pemfile(&cpath).await.unwrap();
                 let back = CertificateChain::load_pemfile(&cpath).await;
@@ -379,6 +390,10 @@ pub fn generate(prop: &str, thorough: bool, rng: &mut Rng, emit: &mut Emit) {
             }
             for n in 0..=5 {
                 emit("pem.rt", vec![s(n), s(rng.below(1 << 30))]);
+            }
+            // over files that exist already and are longer
+            for (n, pre) in [(0usize, 1usize), (1, 1), (1, 3), (2, 2), (4, 1)] {
+                emit("pem.rt", vec![s(n), s(rng.below(1 << 30)), s(pre)]);
             }
             let id = Identity::self_signed(["localhost"]).unwrap();
             let pem = id.certificate_chain().as_slice()[0].to_pem().into_bytes();
